@@ -479,14 +479,16 @@ Definition m_layout (l : nat) : M (nat * nat * str) :=
 Definition m_next_partname (tp : str * str) : M str :=
   do s <- getS ;; lift (Ids.next_partname (fst tp) (snd tp) (iter_names s)).
 
-(** Slides.add_slide *)
+(** Slides.add_slide.  The part name (PresentationPart._next_slide_partname, since repair
+    086e8ef1): slide(n+1).xml for n p:sldId entries unless a part iter_parts yields carries that
+    name already, then OpcPackage.next_partname over those parts *)
 Definition m_add_slide (l : nat) : M unit :=
   do _ <- m_access_slides ;;
   do ' (_, lp, _) <- m_layout l ;;
   do s <- getS ;;
   do pp <- m_part (st_pres s) ;;
   do lpart <- m_part lp ;;
-  let name := Ids.next_slide_partname (length (pt_idl pp)) in
+  do name <- lift (Ids.next_slide_partname (length (pt_idl pp)) (iter_names s)) ;;
   do sid <- m_new (with_phs (new_part name ct_slide 0) (pt_phs lpart)) ;;
   do _ <- m_relate sid rt_slide_layout (TInt lp) ;;
   do rid <- m_relate (st_pres s) rt_slide (TInt sid) ;;
